@@ -140,14 +140,14 @@ class Scale(EnvironmentFilter):
         #get the potential keys to scale
         potential_keys = None
         if is_dense_context:
-            potential_keys = [i for i,v in enumerate(first_context) if isinstance(v,(int,float))]
+            potential_keys = [i for i,v in enumerate(first_context) if v is None or isinstance(v,(int,float))]
         if is_sparse_context:
-            unscalable_cols = {k for k,v in first_context.items() if not isinstance(v,(int,float))}
+            unscalable_cols = {k for k,v in first_context.items() if v is not None and not isinstance(v,(int,float))}
             potential_keys  = set().union(*map(methodcaller("keys"),fitting_contexts)) - unscalable_cols
         if is_value_context:
             potential_keys = [0]
 
-        if not potential_keys:
+        if not potential_keys and not is_sparse_context:
             yield from chain(fitting_interactions,remaining_interactions)
             return
 
@@ -163,7 +163,7 @@ class Scale(EnvironmentFilter):
 
         #get the shift/scale values for columns
         scaling_vals = list(map(self._get_shift_and_scale,cols))
-        if all((v is None for v in scaling_vals)):
+        if all((v is None for v in scaling_vals)) and not is_sparse_context:
             yield from chain(fitting_interactions, remaining_interactions)
             return
 
@@ -176,15 +176,25 @@ class Scale(EnvironmentFilter):
             for interaction in chain(fitting_interactions, remaining_interactions):
                 context = interaction['context']
                 for i,(shift,scale) in scaling_tuples:
-                    context[i] = (context[i]+shift)*scale
+                    if isinstance(context[i],(int,float)):
+                        context[i] = (context[i]+shift)*scale
                 yield interaction
 
         if is_sparse_context:
             scaling_dict = dict(zip(scaling_keys,scaling_vals))
+            #a key that is absent from every fitting context is a column of zeros
+            default_val  = self._get_shift_and_scale([0]*len(fitting_contexts))
+            fitted_keys  = set(potential_keys) | unscalable_cols
             for interaction in chain(fitting_interactions, remaining_interactions):
                 context = interaction['context']
-                for k in scaling_dict.keys() & context.keys():
-                    (shift,scale) = scaling_dict[k]
+                for k in context.keys():
+                    if not isinstance(context[k],(int,float)): continue
+                    if k in scaling_dict:
+                        (shift,scale) = scaling_dict[k]
+                    elif default_val and k not in fitted_keys:
+                        (shift,scale) = default_val
+                    else:
+                        continue
                     context[k] = (context[k]+shift)*scale
                 yield interaction
 
@@ -192,24 +202,17 @@ class Scale(EnvironmentFilter):
             (shift,scale) = list(scaling_vals)[0]
             for interaction in chain(fitting_interactions, remaining_interactions):
                 new = interaction.copy()
-                if new['context'] is not None:
+                if isinstance(new['context'],(int,float)):
                     new['context'] = (new['context']+shift)*scale
                 yield new
 
     def _get_shift_and_scale(self,values) -> Tuple[float,float]:
         try:
-            values = [v for v in values if v is not None]
+            #missing values (None and nan, nan != nan) are ignored
+            values = [v for v in values if v is not None and v == v]
+            if not all(isinstance(v,(int,float)) for v in values): return None
             shift = self._shift_value(values)
             scale = self._scale_value(values,shift)
-
-            if isnan(shift):
-                #this is a trick, nan != nan so equality will tell
-                #if a value is not equal with itself then it is nan.
-                #Using this trick is about 2x faster than using isnan.
-                not_nan_vals = list(compress(values,map(eq,values,values)))
-                shift = self._shift_value(not_nan_vals)
-                scale = self._scale_value(not_nan_vals,shift)
-
             return shift,scale
         except (TypeError,ValueError):
             return None
@@ -240,7 +243,7 @@ class Scale(EnvironmentFilter):
             scale_den = iqr(values)
         elif scale == "maxabs":
             scale_num = 1
-            scale_den = max(map(abs,map(shift.__add__,values)))
+            scale_den = max(abs(v+shift) for v in values)
 
         return scale_num if scale_den < .000001 else scale_num/scale_den
 
